@@ -231,7 +231,7 @@ def elem_src_expr(el, v, idx):
             opts.append('(true is byte) is int' if val else '(false is byte) is int')
         if 0 <= val <= 255:
             opts.append("'\\x%02x' is int" % val)
-    return opts[(idx * 7 + int(val) + len(opts)) % len(opts)]
+    return opts[(((idx + 1) * 2654435761 + (int(val) & 0xFFFF) * 40503) >> 7) % len(opts)]
 
 
 def elem_val(el, v):
